@@ -707,6 +707,62 @@ def r04_8(run, model):
            witness="goml link Main.core Geo.core without Shape.core: the Go back end panics ('Cannot resolve variant name') or emits calls to undefined functions")
 
 
+def r04_27(run, model):
+    run.rule("R04.27", "a position is resolved against the text it was computed in (continued): the CLI turns the range of a match-compiler "
+                       "diagnostic into line and column with the entry file's text alone (`format_compile_diagnostics(diagnostics, src)`; "
+                       "LineIndex::line_col panics past the end of the text), and a typed tree does not say which file a node came from - so "
+                       "while the error value carries no file, the typed tree handed to the match compiler carries no syntax pointer on "
+                       "the nodes whose diagnostics take their range from it")
+    PIPE = "crates/compiler/src/pipeline/pipeline.rs"
+    CM = "crates/compiler/src/compile_match.rs"
+    TB = "crates/compiler/src/typer/tast_builder.rs"
+    e = model.enum("CompilationError", PIPE)
+    v = next((x for x in e["variants"] if x["name"] == "Compile"), None)
+    if v is None:
+        raise AnalysisIncomplete("CompilationError::Compile not found")
+    fields = [S.norm_ws(str(fl.get("name"))) + ":" + S.norm_ws(str(fl.get("ty"))) for fl in (v.get("fields") or [])]
+    carries_file = any(re.search(r"path|file|source", x, re.I) for x in fields)
+    fmt = model.find_fns("format_compile_diagnostics")
+    one_text = bool(fmt) and all(sum(1 for p in g.params() if re.search(r"\bstr\b|String", p["ty"] or "")) == 1 and
+                                 any(c["k"] == "MethodCall" and c["method"] == "line_col" for c in S.walk(g.body)) for g in fmt if g.body is not None)
+    # which typed nodes give their pointer to a diagnostic of the match compiler: arms of compile_match.rs that bind `astptr` and turn it into a range
+    ranged = set()
+    for g in model.fns(CM):
+        if g.body is None:
+            continue
+        for m in S.find(g.body, "Match"):
+            for arm in m["arms"]:
+                for alt in S.pat_alts(arm["pat"]):
+                    h = S.pat_head(S.strip_refs(alt))
+                    if h[0] == "variant" and "astptr" in S.pat_bindings(alt) and \
+                            any(c["k"] == "MethodCall" and c["method"] == "text_range" for c in S.walk(arm["body"])) and "astptr" in S.idents(arm["body"]):
+                        ranged.add(h[1][-1])
+    with_range = sum(1 for g in model.fns(CM) if g.body is not None for c in S.walk(g.body) if c["k"] == "MethodCall" and c["method"] == "with_range")
+    premise = one_text and not carries_file and with_range > 0 and bool(ranged)
+    n = 0
+    for g in model.fns(TB):
+        if g.body is None:
+            continue
+        for st in S.find(g.body, "Struct"):
+            if st["segs"][-1] not in ranged or "Expr" not in st["segs"]:
+                continue
+            for fl in st["fields"]:
+                if fl["name"] != "astptr":
+                    continue
+                n += 1
+                ex = fl.get("expr")
+                none = ex is not None and ex["k"] == "Path" and ex["segs"] == ["None"]
+                run.ob("R04.27", f"{g.name}|{st['segs'][-1]} carries no syntax pointer into the match compiler", none or not premise, site(TB, fl["sp"]),
+                       f"astptr: {S.norm_ws(run.facts.text(TB, ex['sp']))[:50] if ex is not None else 'shorthand'}; the CLI resolves compile diagnostics against one text: "
+                       f"{one_text}; CompilationError::Compile fields: {fields}; compile_match takes ranges from the pointers of {sorted(ranged)}",
+                       witness="package Main = main.gom (short) + other.gom with `match n { 1 => .. }` lacking a wildcard at byte 900: `compiler run main.gom` "
+                               "panics with `invalid offset`, or reports a line of main.gom where no match exists")
+    run.ob("R04.27", "match compiler|typed nodes that give their pointer to a diagnostic", True, site(CM, None),
+           f"nodes: {sorted(ranged)}; with_range calls: {with_range}; constructions examined in tast_builder: {n}")
+    if premise:
+        run.floor("constructions of range-giving nodes in tast_builder", n, 1)
+
+
 def run(run, model):
     mir = Mir(run.facts)
     an = run.try_rule(r04_1, model)
@@ -723,6 +779,7 @@ def run(run, model):
     run.try_rule(lambda r, m: _c17.unique_definition(r, m, "R04.20", "define_function", ".funcs", "function table",
                  "fn vec_get(x: int32) -> int32 { x + 1 } plus a call: the typer accepts it, go::compile panics (unwrap on None)"), model)
     run.try_rule(r04_18, model)
+    run.try_rule(r04_27, model)
     run.try_rule(r04_22, model)
     run.try_rule(r04_23, model)
     run.try_rule(r04_24, model)
